@@ -73,10 +73,6 @@ def has_kind(v, k):
     return anywhere(v, lambda x: x[0] == k)
 
 
-def sym_guard(a, b):
-    return not (has_kind(a, "b") and has_kind(b, "s")) and not (has_kind(a, "s") and has_kind(b, "b"))
-
-
 def big_int(v):
     return v[0] == "i" and abs(v[1]) > (1 << 53)
 
@@ -104,8 +100,8 @@ def oty(v):
         return None if is_nan(v) else "float"
     if k == "y":
         return "byte"
-    if k == "s":
-        return "string"
+    if k in "sb":
+        return "string"     # strings and byte_slices order together by their bytes (fix 786c921)
     if k in "tf":
         return "bool"
     if k == "L":
@@ -450,7 +446,6 @@ class Findings:
             self.viol.append({"clause": clause, "case": case, "why": why})
 
 
-K_SYM = "byteslice-string-asymmetric"
 K_MIX = "int-float-rounding-not-transitive"
 K_SETX = "set-membership-cross-type"
 
@@ -464,7 +459,7 @@ def oracle_pair(a, b, o, route, F, stats):
     eq_ab, eq_ba = o["eq"][0], o["eq"][1]
     # symmetry
     if eq_ab != eq_ba:
-        F.add("symmetry of ==", case, "a == b is %s but b == a is %s" % (eq_ab, eq_ba), None if sym_guard(a, b) else K_SYM)
+        F.add("symmetry of ==", case, "a == b is %s but b == a is %s" % (eq_ab, eq_ba))
     # != is the exact negation
     for i in (0, 1):
         if o["ne"][i] not in "01" or o["eq"][i] not in "01" or o["ne"][i] == o["eq"][i]:
@@ -553,8 +548,11 @@ def oracle_contains(c, x, line, route, F, stats):
         stats["contains_true"] += 1
     if (f[0] == "I1") != any_eq:
         known = None
-        if c[0] == "S" and any(tag(m) != tag(x) and ((numeric(m) and numeric(x)) or (m[0] == "b" and x[0] == "s")) for m in c[1]):
+        text_pair = lambda m: (m[0] == "b" and x[0] == "s") or (m[0] == "s" and x[0] == "b")
+        if c[0] == "S" and any(tag(m) != tag(x) and ((numeric(m) and numeric(x)) or text_pair(m)) for m in c[1]):
             known = K_SETX
+        if c[0] == "M" and x[0] == "b":
+            known = K_SETX      # a byte_slice is == to the string key with its bytes; map membership asks for a string
         F.add("in agrees with iterating and comparing", case,
               "x in c is %s but comparing the elements with == gives %s" % (f[0][1], q), known)
 
@@ -858,7 +856,7 @@ def run_sharded(exe, lines, work, name, shards):
 
 def load_known_ids():
     ids = {}
-    for fn in ("known_findings.a.jsonl", "known_findings.jsonl"):
+    for fn in ("known_findings.jsonl",):
         p = os.path.join(C.VERIF, fn)
         if not os.path.exists(p):
             continue
